@@ -18,11 +18,12 @@ CFG = {
     "variants": [{"features": []}],
     "lean_modules": ["SuccinctlyVerif.Props.C06"],
     "lean_files": ["SuccinctlyVerif/Props/C06.lean", "SuccinctlyVerif/Proof/JsonNav.lean",
+                   "SuccinctlyVerif/Proof/JsonNavTree.lean", "SuccinctlyVerif/Proof/JsonNavDecode.lean",
                    "SuccinctlyVerif/Model/JsonNav.lean"],
     "generated": ["C05:", "tables"],
     "allow_bv_decide": False,
     "required_theorems": ["SV.Props.C06.index_structure", "SV.Props.C06.string_end_eq", "SV.Props.C06.number_span_eq",
-                          "SV.Props.C06.navigate_eq", "SV.Props.C06.find_last_dup"],
+                          "SV.Props.C06.navigate_eq", "SV.Props.C06.find_last_dup", "SV.Props.C06.decode_escapes_eq"],
     "nontrivial": _c06_nontrivial,
     "rule": "request = one document whose whole navigated tree is dumped, or one text-level kernel call; distinct request "
             "lines with at least 2 payload bytes",
